@@ -46,7 +46,7 @@ def net_case(torch, seed, mode):
     from plinio.methods.pit.nn.features_masker import PITFrozenFeaturesMasker
     rng = random.Random(seed)
     spec = ga.gen(rng, dim=rng.choice([1, 1, 2]), conv_head=True, k1d=list(range(1, 13)), p_intpad=0.5, p_stride=0.25,
-                  weights={'nestcat': 0.08})
+                  weights={'nestcat': 0.08}, p_dense_stem=0.12)
     if rng.random() < 0.3:
         spec = ga.add_output_head(spec, rng)
     unsupported = rng.random() < 0.12
@@ -92,7 +92,21 @@ def net_case(torch, seed, mode):
                 if isinstance(fm, PITFrozenFeaturesMasker):
                     _adv_fill(torch, rng, fm.alpha, mode)
             o['frozen_alpha_written'] = True
+        # the sizes are read off the parameter VALUES, whether or not the parameters are (still) being trained: after a search
+        # the user freezes the architecture (train_net_only) or switches single axes off before summary() / export()
+        o['phase'] = rng.choice([None, 'train_net_only', 'rf+dilation-off', 'train_nas_only'])
+        summ_before = p.summary() if o['phase'] else None
+        if o['phase'] == 'train_net_only':
+            p.train_net_only()
+        elif o['phase'] == 'train_nas_only':
+            p.train_nas_only()
+        elif o['phase'] == 'rf+dilation-off':
+            p.train_rf = False
+            p.train_dilation = False
         summ = p.summary()
+        if summ_before is not None and repr(summ_before) != repr(summ):
+            diff = [nm for nm in summ if summ_before.get(nm) != summ[nm]]
+            o['fails'].append(('summary-changes-with-the-training-phase', '%s: %s: before %s after %s' % (o['phase'], diff[:2], [summ_before.get(nm) for nm in diff[:2]], [summ[nm] for nm in diff[:2]])))
         for nm, layer in p.seed.named_modules():
             if isinstance(layer, (PITConv1d, PITConv2d, PITLinear)):
                 L = {'type': type(layer).__name__, 'summary': {k: (list(v) if isinstance(v, tuple) else v) for k, v in summ[nm].items() if k != 'type'},
@@ -202,6 +216,10 @@ def run(ctx):
             ctx.dist['net:standalone-batchnorm'] += 1
         if o.get('snapshot'):
             ctx.dist['net:deep-copied-snapshot'] += 1
+        if o.get('phase'):
+            ctx.dist['net:phase:' + o['phase']] += 1
+        if 'dense-stem' in o.get('spec', {}).get('productions', []):
+            ctx.dist['net:dense-stem (input concatenated with a convolution of itself)'] += 1
         for key, info in o['fails']:
             fails.append(('net:' + key, {'seed': o['seed'], 'mode': o['mode'], 'arch': o['arch']}, {'detail': info, 'trace': o.get('trace')}))
     ctx.extra['networks'] = len(nets) - skipped
